@@ -49,6 +49,14 @@ def cmdGeval (args : List String) : String :=
     | _, _ => "bad-op"
   | _ => "bad-op"
 
+/-- `gnull <an:0|1> <bn:0|1>` (binary) / `gnull 1` (unary) → accepted renderings of the null-mask graph. -/
+def cmdGnull (args : List String) : String :=
+  let gs := match args with
+    | [an, bn] => nullTerms2 (an == "1") (bn == "1")
+    | ["1"] => nullTerms1
+    | _ => []
+  if gs.isEmpty then "~" else " || ".intercalate (gs.map G.render)
+
 /-- `gcast <src> <dst>` → accepted renderings of `astype(x : src, dst)` joined by ` || `, `~` outside the fragment. -/
 def cmdGcast (args : List String) : String :=
   match args with
